@@ -99,6 +99,38 @@ def py_map(body, var, seq, out_sort):
     return _MAPS[key](seq)
 
 
+_REPEAT = []
+
+
+def py_repeat(st, s, n):
+    """s * n as a recursive function; its length lemma (valid by induction) is stated for the solver"""
+    if not _REPEAT:
+        S = z3.StringSort()
+        f = z3.RecFunction("py_repeat", S, z3.IntSort(), S)
+        x, k = z3.Const("x", S), z3.Int("k")
+        z3.RecAddDefinition(f, [x, k], z3.If(k <= 0, z3.StringVal(""), z3.Concat(f(x, k - 1), x)))
+        _REPEAT.append(f)
+    t = _REPEAT[0](s, n)
+    if st is not None:
+        st.assume(z3.Length(t) == z3.If(n > 0, n, 0) * z3.Length(s))
+    return t
+
+
+_LOWER = []
+
+
+def py_lower(st, s):
+    """str.lower() as a function symbol; fixed points for the literals the code compares against"""
+    if not _LOWER:
+        _LOWER.append(z3.Function("py_lower", z3.StringSort(), z3.StringSort()))
+    t = _LOWER[0](s)
+    if st is not None:
+        for lit in ("left", "center", "right", "block", "hash", "pipe", "dot", "scroll", "blink", "typewriter", "bounce"):
+            st.assume(z3.Implies(s == z3.StringVal(lit), t == z3.StringVal(lit)))
+        st.assume(_LOWER[0](t) == t)
+    return t
+
+
 _RSTRIP = []
 
 
@@ -319,7 +351,7 @@ class Engine:
                 if mi and cell.cls in mi.classes:
                     ci = mi.classes[cell.cls]
                     if attr in ci.consts:
-                        return const(ci.consts[attr])
+                        return lift_const(ci.consts[attr])
                     if attr in ci.methods:
                         return V(FN, ("method", cd.file, cell.cls, attr, base))
                     if attr in ci.properties:
@@ -340,7 +372,7 @@ class Engine:
             _, file, cname = base.t
             ci = self.modules[file].classes[cname]
             if attr in ci.consts:
-                return const(ci.consts[attr])
+                return lift_const(ci.consts[attr])
             if attr in ci.methods:
                 return V(FN, ("method", file, cname, attr, None))
         if base.k in self.kind_attr:
@@ -675,7 +707,11 @@ class Engine:
             yield st, vtuple(a.t + b.t)
             return
         if op == "Mult" and a.k == STR and b.k in (INT, BOOL):
-            raise ToolLimit("str * int")
+            yield st, vstr(py_repeat(st, a.t, as_int_term(b)))
+            return
+        if op == "Mult" and b.k == STR and a.k in (INT, BOOL):
+            yield st, vstr(py_repeat(st, b.t, as_int_term(a)))
+            return
         if op == "Truediv":
             pass
         if a.k == "path" and op == "Div" and b.k == STR:
@@ -735,6 +771,9 @@ class Engine:
             yield from self.index(base, vs[1], s1)
 
     def index(self, base, idx, st):
+        if base.k == "cell" and isinstance(base.t, AList):
+            yield st, V(base.t.ek, z3.Select(base.t.arr, as_int_term(idx)))
+            return
         if base.k == "cell" and isinstance(base.t, SList):
             yield st, V(base.t.ek, base.t.seq[as_int_term(idx)])
             return
@@ -769,6 +808,29 @@ class Engine:
                     else:
                         j = z3.If(i < 0, i + n, i)
                         yield s1, V(cell.ek, cell.seq[j])
+                return
+            if isinstance(cell, AList):
+                i = as_int_term(idx)
+                if self.spec_mode:
+                    yield st, V(cell.ek, z3.Select(cell.arr, i))
+                    return
+                for s1, ok in self.fork(st, z3.And(i >= -cell.n, i < cell.n)):
+                    if not ok:
+                        yield s1, Raised("IndexError")
+                    else:
+                        yield s1, V(cell.ek, z3.Select(cell.arr, z3.If(i < 0, i + cell.n, i)))
+                return
+            if isinstance(cell, CharList):
+                i = as_int_term(idx)
+                n = z3.Length(cell.s)
+                if self.spec_mode:
+                    yield st, vstr(z3.SubString(cell.s, i, 1))
+                    return
+                for s1, ok in self.fork(st, z3.And(i >= -n, i < n)):
+                    if not ok:
+                        yield s1, Raised("IndexError")
+                    else:
+                        yield s1, vstr(z3.SubString(cell.s, z3.If(i < 0, i + n, i), 1))
                 return
             if isinstance(cell, Map):
                 k = self.pykey(idx)
@@ -1383,6 +1445,9 @@ class _CallMixin:
             if v.k == "cell" and isinstance(v.t, SList):
                 yield st, vint(z3.Length(v.t.seq))
                 return
+            if v.k == "cell" and isinstance(v.t, AList):
+                yield st, vint(v.t.n)
+                return
             if v.k == "seq":
                 yield st, vint(z3.Length(v.t))
                 return
@@ -1404,6 +1469,10 @@ class _CallMixin:
                 cell = st.heap[v.t]
                 if isinstance(cell, CList):
                     yield st, vint(len(cell.items))
+                elif isinstance(cell, CharList):
+                    yield st, vint(z3.Length(cell.s))
+                elif isinstance(cell, AList):
+                    yield st, vint(cell.n)
                 elif isinstance(cell, SList):
                     yield st, vint(z3.Length(cell.seq))
                 else:
@@ -1468,6 +1537,9 @@ class _CallMixin:
                 yield st, (st.alloc(CList(())) if name == "list" else vtuple(()))
                 return
             v = pos[0]
+            if v.k == STR and name == "list":
+                yield st, st.alloc(CharList(v.t))
+                return
             items = self.static_items(v, st)
             if items is not None:
                 yield st, (st.alloc(CList(items)) if name == "list" else vtuple(items))
@@ -1601,6 +1673,11 @@ class _CallMixin:
                     parts.append(x.t)
                 yield st, vstr(z3.Concat(*parts) if len(parts) > 1 else (parts[0] if parts else z3.StringVal("")))
                 return
+            if pos[0].k == REF and isinstance(st.heap[pos[0].t], CharList):
+                if z3.is_string_value(simp(s)) and simp(s).as_string() == "":
+                    yield st, vstr(st.heap[pos[0].t].s)
+                    return
+                raise ToolLimit("join of a character list with a non-empty separator")
             if pos[0].k == REF and isinstance(st.heap[pos[0].t], SList) and st.heap[pos[0].t].ek == STR:
                 seq = st.heap[pos[0].t].seq
                 yield st, vstr(py_join()(s, seq, z3.Length(seq)))
@@ -1625,6 +1702,13 @@ class _CallMixin:
             return
         if attr == "rstrip" and not pos:
             yield st, vstr(py_rstrip(st, s))
+            return
+        if attr == "lower" and not pos:
+            yield st, vstr(py_lower(st, s))
+            return
+        if attr == "ljust" and len(pos) == 1:
+            n = as_int_term(pos[0])
+            yield st, vstr(z3.Concat(s, py_repeat(st, z3.StringVal(" "), n - z3.Length(s))))
             return
         hook = self.hooks.get("str." + attr)
         if hook:
@@ -1900,6 +1984,9 @@ class _CallMixin:
             if isinstance(cell, SList):
                 st.heap[v.t] = SList(z3.Const(n, cell.seq.sort()), cell.ek)
                 return v
+            if isinstance(cell, AList):
+                st.heap[v.t] = AList(z3.Const(n + ".arr", cell.arr.sort()), z3.Int(n + ".len"), cell.ek)
+                return v
         raise ToolLimit(f"havoc of {v.k}")
 
     def instantiate(self, file, cname, pos, kw, st, node):
@@ -2094,6 +2181,46 @@ class _StmtMixin:
                     yield ("raise", vs), s1
                     continue
                 base, idx = vs
+                if base.k == REF and isinstance(s1.heap[base.t], CharList):
+                    cs = s1.heap[base.t].s
+                    i = as_int_term(idx)
+                    n = z3.Length(cs)
+                    if v.k != STR:
+                        raise ToolLimit("character list store of a non-string")
+                    for s2, ok in self.fork(s1, z3.And(i >= -n, i < n)):
+                        if not ok:
+                            yield ("raise", Raised("IndexError")), s2
+                            continue
+                        j = z3.If(i < 0, i + n, i)
+                        s2.heap[base.t] = CharList(z3.Concat(z3.SubString(cs, 0, j), v.t, z3.SubString(cs, j + 1, n - j - 1)))
+                        yield ("next",), s2
+                    continue
+                if base.k == REF and isinstance(s1.heap[base.t], AList):
+                    cell = s1.heap[base.t]
+                    i = as_int_term(idx)
+                    if v.k != cell.ek:
+                        raise ToolLimit("list store of a different element kind")
+                    for s2, ok in self.fork(s1, z3.And(i >= -cell.n, i < cell.n)):
+                        if not ok:
+                            yield ("raise", Raised("IndexError")), s2
+                            continue
+                        s2.heap[base.t] = AList(z3.Store(cell.arr, z3.If(i < 0, i + cell.n, i), v.t), cell.n, cell.ek)
+                        yield ("next",), s2
+                    continue
+                if base.k == REF and isinstance(s1.heap[base.t], SList):
+                    cell = s1.heap[base.t]
+                    i = as_int_term(idx)
+                    n = z3.Length(cell.seq)
+                    if v.k != cell.ek:
+                        raise ToolLimit("list store of a different element kind")
+                    for s2, ok in self.fork(s1, z3.And(i >= -n, i < n)):
+                        if not ok:
+                            yield ("raise", Raised("IndexError")), s2
+                            continue
+                        j = z3.If(i < 0, i + n, i)
+                        s2.heap[base.t] = SList(z3.Concat(z3.Extract(cell.seq, 0, j), z3.Unit(v.t), z3.Extract(cell.seq, j + 1, n - j - 1)), cell.ek)
+                        yield ("next",), s2
+                    continue
                 if base.k == REF and isinstance(s1.heap[base.t], Map):
                     cell = s1.heap[base.t]
                     k = self.pykey(idx)
@@ -2221,6 +2348,9 @@ class _StmtMixin:
                         if isinstance(sub.value, ast.Name) and sub.value.id in st.glob:
                             if sub.value.id not in globs:
                                 globs.append(sub.value.id)
+                        elif isinstance(sub.value, ast.Name) and st.locals.get(sub.value.id) is not None and st.locals[sub.value.id].k == REF:
+                            if sub.value.id not in lists:
+                                lists.append(sub.value.id)
                         else:
                             raise ToolLimit("loop stores into a subscript of a local")
                     if isinstance(sub, ast.Call):
@@ -2286,6 +2416,8 @@ class _StmtMixin:
             ek = (spec or {}).get("list_kinds", {}).get(n)
             if isinstance(cell, SList):
                 st.heap[cur.t] = SList(z3.Const(f"{n}!{self.fresh_id()}", cell.seq.sort()), cell.ek)
+            elif isinstance(cell, CharList):
+                st.heap[cur.t] = CharList(z3.String(f"{n}!{self.fresh_id()}"))
             elif isinstance(cell, CList) and ek:
                 st.heap[cur.t] = SList(z3.Const(f"{n}!{self.fresh_id()}", z3.SeqSort(typespec.SORTS[ek])), ek)
             elif n in locs:
@@ -2485,6 +2617,18 @@ class _StmtMixin:
 
             def elem(i, st):
                 return V(ek, seq[i])
+        elif it.k == STR:
+            lo, hi = z3.IntVal(0), z3.Length(it.t)
+            sterm = it.t
+
+            def elem(i, st):
+                return vstr(z3.SubString(sterm, i, 1))
+        elif it.k == "iter" and it.t["kind"] == "enum" and it.t["inner"].k == STR:
+            sterm, start = it.t["inner"].t, it.t["start"]
+            lo, hi = z3.IntVal(0), z3.Length(sterm)
+
+            def elem(i, st):
+                return vtuple((vint(i + start), vstr(z3.SubString(sterm, i, 1))))
         elif it.k == "iter" and it.t["kind"] == "enum":
             inner = it.t["inner"]
             cell = st.heap[inner.t]
